@@ -138,13 +138,36 @@ def check_c18(a, seed, t0):
             print('FAILED-OBLIGATION property=C18 kani::c18_default_frame_table :: %s' % fc)
         print('VIOLATION property=C18 replay=%s%s' % (path, '' if r['replay'] else ' no-failing-input-found'))
         rc = 1
+    # bounded stand-in for SvgBuilder::image() (f64 arithmetic interleaved with string building: no contract can be
+    # attached): default placement exhaustively + sampled overrides, read back from the SVG text via the public API
+    nb = None
+    try:
+        import native
+        nb = native.c18('thorough' if a.tier == 'thorough' else 'quick', seed)
+    except Exception as e:
+        print('NOTE property=C18 bounded native harness for SvgBuilder::image() unavailable: %s' % str(e)[:300])
+    if nb is not None and nb['failures'] and rc != 2:
+        import hashlib
+        os.makedirs(os.path.join(VERIF, 'replays'), exist_ok=True)
+        path = os.path.join(VERIF, 'replays', 'C18-native-%s.json' % hashlib.sha1(json.dumps(nb['failures'][0], sort_keys=True).encode()).hexdigest()[:12])
+        json.dump({'property': pid, 'decided_by': 'bounded native harness (SvgBuilder::image() is outside the reach of contracts)',
+                   'failed_obligations': [{'obligation': 'native::' + f['check'], 'message': f['detail']} for f in nb['failures']],
+                   'input': nb['failures'][0]['case'], 'native_cmd': nb['cmd']}, open(path, 'w'), indent=1)
+        for f in nb['failures'][:5]:
+            print('FAILED-OBLIGATION property=C18 native::%s :: %s :: case %s' % (f['check'], f['detail'], json.dumps(f['case'])))
+        if rc != 1:
+            print('VIOLATION property=C18 replay=%s' % path)
+        rc = 1
     ev = {'property_id': pid, 'tier': a.tier if a.tier in ('quick', 'thorough') else 'quick', 'seed': seed, 'level': 'proof',
-          'coverage': {'obligations': max(n_all, 1), 'discharged': (n_all - n_fail) if rc != 2 else 0, 'checker_cmd': r['cmd'] + '  (in a scratch copy of /repo with kani/c18_harness.rs appended to src/convert/svg.rs)',
+          'coverage': {'bounded_stand_in_for_image_fn': ({'cmd': nb['cmd'], 'summary': nb['summary'], 'wall_s': nb['wall_s'],
+                                                          'clauses': 'frame centred / module aligned / < 40% / clear of finders / monotone; image fits and is centred; requested size, gap (less at most one module), position honoured'} if nb is not None else None),
+                       'evaluations': (nb['summary']['builds'] if nb is not None else 0) + max(n_all, 1), 'distinct_nontrivial': (nb['summary']['distinct_cases'] if nb is not None else 0) + 120,
+                       'obligations': max(n_all, 1), 'discharged': (n_all - n_fail) if rc != 2 else 0, 'checker_cmd': r['cmd'] + '  (in a scratch copy of /repo with kani/c18_harness.rs appended to src/convert/svg.rs)',
                        'trusted_base': ['Kani 0.68 / CBMC 6.11 (IEEE-754 f64 semantics incl. round())', 'the harness module is appended text; no line of the repository is edited'],
                        'explanation': 'loop-free harness over v in 0..40 x 3 shapes with kani::any(): complete for the finite domain, not a bounded stand-in. Clauses about explicit size/gap/position overrides and the centring arithmetic inside SvgBuilder::image() are NOT covered (string-building function).',
                        'samples': ['c18_default_frame_table: odd whole frame >= 5; frame < 0.4 n; (n - frame)/2 >= 8; n - frame even; 1 <= image <= frame, whole; frame monotone in version'],
                        'exhaustive': True, 'functions_under_contract': ['convert::svg::SvgBuilder::image_placement']},
-          'assumptions': ['only the default-placement table (image_placement) is decided; SvgBuilder::image() is out of reach'],
+          'assumptions': ['only the default-placement table (image_placement) is PROVED; SvgBuilder::image() (centring, parity adjustment, overrides) is out of reach of contracts and covered by the BOUNDED native harness only'],
           'wall_s': round(time.time() - t0, 2), 'violations': 1 if rc == 1 else 0}
     evdir = os.environ.get('VERIF_EVIDENCE_DIR') or os.path.join(VERIF, 'evidence')
     os.makedirs(evdir, exist_ok=True)
